@@ -14,7 +14,7 @@ use crate::util::*;
 use crate::vmcore::*;
 use fuel_asm::{op, GTFArgs, Instruction, RegId};
 use fuel_storage::{StorageAsRef, StorageRead, StorageReadError, StorageWrite};
-use fuel_tx::field::ScriptData as _;
+use fuel_tx::field::{ReceiptsRoot as _, ScriptData as _};
 use fuel_tx::{ConsensusParameters, ContractParameters, GasCosts, Input, Receipt, Script, TransactionBuilder};
 use fuel_types::{canonical::Serialize, AssetId, BlobId, Bytes32, ContractId};
 use fuel_vm::{
@@ -185,8 +185,17 @@ pub fn exec_one_acc(out: &mut Out, run: u64, i: u64, vm: &mut VmR, sets: &[(usiz
     }
 }
 
-/// mode "run" (see vmcore::record_run) plus the access log on Init (accesses made before the first instruction) and on every Step
+/// mode "run": a copy of vmcore::record_run_with (same events, same fields) that additionally attaches the access log to
+/// the Init event (accesses made by transact() before the first instruction) and to every Step.
+/// (Proposed to the lead: a per-event hook in vmcore::record_run_with would make this copy unnecessary.)
 pub fn record_run_acc(out: &mut Out, run: u64, vm: &mut VmR, w: &World, checked: Checked<Script>, extra: Value, max_steps: u64) -> u64 {
+    let fee_info = {
+        use fuel_tx::field::{MaxFeeLimit, Tip};
+        use fuel_tx::Chargeable;
+        let tx = checked.transaction();
+        json!({"min_gas": tx.min_gas(w.params.gas_costs(), w.params.fee_params()).to_string(), "max_fee": tx.max_fee_limit().to_string(),
+               "tip": tx.tip().to_string(), "factor": w.params.fee_params().gas_price_factor().to_string(), "price": w.gas_price.to_string()})
+    };
     let ready = match checked.into_ready(w.gas_price, w.params.gas_costs(), w.params.fee_params(), Some(w.block_height.into())) {
         Ok(r) => r,
         Err(e) => { out.ev(json!({"ev": "NotReady", "run": run, "err": format!("{e:?}")})); return 0; }
@@ -204,6 +213,7 @@ pub fn record_run_acc(out: &mut Out, run: u64, vm: &mut VmR, w: &World, checked:
         "ev": "Init", "run": run, "kind": "script", "env": env_json(vm, w),
         "regs": regs_json(&s0.regs), "stack": hx(&s0.stack), "hp": s0.hp,
         "tx": hx(vm.transaction().to_bytes()), "early": early,
+        "outs": outputs_json(vm), "bal0": balances_json(vm), "fee": fee_info,
     }), extra);
     attach(&mut init, vm);
     out.ev(init);
@@ -231,11 +241,14 @@ pub fn record_run_acc(out: &mut Out, run: u64, vm: &mut VmR, w: &World, checked:
         i += 1;
     }
     let rc: Vec<Receipt> = vm.receipts().to_vec();
+    let tx_after = vm.transaction().to_bytes();
     out.ev(merge(json!({
         "ev": "Final", "run": run, "steps": i,
-        "tx_after": hx(vm.transaction().to_bytes()),
+        "tx_after": hx(&tx_after),
+        "receipts_root": hx(vm.transaction().receipts_root()),
         "rc_all": Value::Array(rc.iter().map(|r| json!(hx(r.to_bytes()))).collect()),
         "nrc": rc.len(),
+        "outputs": outputs_json(vm),
     }), out_of_state(&state)));
     i
 }
